@@ -247,6 +247,11 @@ impl<'a> Gen<'a> {
             InVal::Z
         } else {
             let m = if bits >= 62 { 1 << 20 } else { 1i64 << bits };
+            if bits < 62 && self.r.chance(50, 1000) {
+                // a default that does not fit the signal: it is handed to the driver as it is,
+                // at start-up and in every row alike
+                return InVal::V(*self.r.pick(&[-1, m | 5, (m << 3) | 1, i64::MIN, -m]));
+            }
             match self.r.below(3) {
                 0 => InVal::V(0),
                 1 => InVal::V(1.min(m - 1)),
